@@ -50,17 +50,18 @@ type editor struct {
 type concSpec struct {
 	name    string
 	editors []editor
-	creator bool // creates T2 unconditionally
+	creators int // threads creating T2 unconditionally (empty tag)
 	expirer bool // runs Expire (T2 is pre-populated, expired for 8 days)
 	reader  bool // one extra Get(T1)
 }
 
 func concSpecs() []concSpec {
 	specs := []concSpec{
-		{name: "conc/update-update-create", editors: []editor{{"update", permsB}, {"update", permsC}}, creator: true},
-		{name: "conc/update-delete-create", editors: []editor{{"update", permsB}, {"delete", nil}}, creator: true},
+		{name: "conc/update-update-create", editors: []editor{{"update", permsB}, {"update", permsC}}, creators: 1},
+		{name: "conc/update-delete-create", editors: []editor{{"update", permsB}, {"delete", nil}}, creators: 1},
 		{name: "conc/update-expire-get", editors: []editor{{"update", permsB}}, expirer: true, reader: true},
 		{name: "conc/update-update-delete", editors: []editor{{"update", permsB}, {"update", permsC}, {"delete", nil}}},
+		{name: "conc/create-create-delete", editors: []editor{{"delete", nil}}, creators: 2},
 	}
 	return specs
 }
@@ -120,9 +121,10 @@ func concProgram(sp concSpec) vrt.Program {
 					}
 				})
 			}
-			if sp.creator {
-				addThread("creator", func(log *[]cop) {
-					n := mkToken("T2", permsA, exp)
+			for i := 0; i < sp.creators; i++ {
+				perms := [][]string{permsA, permsB}[i]
+				addThread(fmt.Sprintf("creator%d", i+1), func(log *[]cop) {
+					n := mkToken("T2", perms, exp)
 					_, err := token.Update(n.Clone(), "")
 					*log = append(*log, cop{kind: "create", name: "T2", val: norm(n, false), err: errClass(err), msg: fmt.Sprint(err)})
 				})
@@ -183,6 +185,19 @@ func concOracle(sp concSpec, init map[string]string, logs [][]cop) (string, *cor
 			}
 		}
 	}
+	// ... and of the unconditional creators of one token at most one
+	ncreate := 0
+	for _, l := range logs {
+		for _, c := range l {
+			if c.kind == "create" && c.err == "" {
+				ncreate++
+			}
+		}
+	}
+	if ncreate > 1 {
+		return outcome, viol(sp.name+"/create-of-existing-acknowledged",
+			fmt.Sprintf("%d unconditional creates of the same token were all acknowledged (one silently overwrote the other): %s", ncreate, outcome))
+	}
 	for _, kinds := range byTag {
 		if len(kinds) > 1 {
 			sort.Strings(kinds)
@@ -231,14 +246,7 @@ func renameTags(s string, logs [][]cop) string {
 			}
 		}
 	}
-	sort.Slice(order, func(i, j int) bool {
-		if len(order[i]) != len(order[j]) {
-			return len(order[i]) < len(order[j])
-		}
-		return order[i] < order[j]
-	})
-	// order by (size, mtime) text is not chronological in general; order by
-	// mtime, which is strictly increasing under logical mtimes
+	// chronological: the mtime part is strictly increasing under logical mtimes
 	sort.Slice(order, func(i, j int) bool { return tagTime(order[i]) < tagTime(order[j]) })
 	for i, t := range order {
 		s = strings.ReplaceAll(s, t, fmt.Sprintf("v%d", i))
@@ -394,10 +402,6 @@ func runConc(res *core.Result, shard, shards int) {
 	for _, sp := range concSpecs() {
 		if !core.Want(sp.name) {
 			continue
-		}
-		if sp.name == "conc/update-update-delete" && core.Quick() {
-			// three editors: bound 2 in the quick tier is kept, but the program
-			// is large; it runs in both tiers and reports Exhaustive honestly
 		}
 		res.AddSub(vrt.Explore(concProgram(sp), res, shard, shards))
 	}
